@@ -11,6 +11,12 @@ CHECKS = {
  "C02": dict(level="model_checking", technique="exhaustive model checking of coherence conditions over decision tables extracted by abstract interpretation",
    text="The five per-trait decision functions (ignore / selected comparator / reverse / error) and the recognition gate are extracted from the generator by path-sensitive abstract interpretation and composed for every one of 2^20 attribute states x 31 derived sets; whenever no derived trait errors, coherence conditions (uniform ignore, Hash ignores at least what == ignores, no mixture of customised and default comparators, equal reverse) must hold. Exhaustive over the finite configuration space; the laws on values are not evaluated.",
    note="Assumes all key/by on one field express one key (hypothesis of the property) and lawful field impls. Extracted model validated against generated code structurally (operand wiring rule), not by running it.", ref="5 C02"),
+ "C03": dict(level="other", technique="abstract interpretation: ordered where-clause push traces per role and path, classified by declared types, compared with the documented default-bound rule",
+   text="For every builder role (19 role slots incl. the five comparison bodies on structs and enums, all operator forms) and every successful path, the default bound on a field type is pushed exactly when explicit-bound resolution reaches its end for that field and the field is used through the derived trait (not debug-/comparison-ignored, no key/by, no explicit default value, the chosen default variant, the transparent field); the push is conditional on the type mentioning a type or const parameter (first segment of a path without leading `::`, descending into arguments); the declared where-clause is copied and the builder emits every collected type and predicate.",
+   note="Macro-typed fields are invisible to the parameter-mention visitor (not claimed). Which fields the body uses is tied to the generated code by the per-trait rules (C01 C06 C07 C08 C10 C11). Input invariants of syn's data model are assumed (Named <=> identifiers).", ref="5 C03"),
+ "C04": dict(level="other", technique="abstract interpretation: ordered where-clause push traces per role and path vs the documented nine-level priority; decision model of Bounds::from",
+   text="For every role and every successful path the ordered trace of where-clause pushes (places classified by the declared types along them: helper attribute / per-trait / shared; type / variant / field scope) equals the documented resolution: each level is pushed iff every earlier level of its own scope chain continued, helper attributes most specific first at every placement, variant level honoured by every enum role, a stop inside one variant or field invisible to the next (loop-carried flags are rejected), and the default bound only at the end; Bounds::from / push are checked to mean absent=>continue, bound(..)=>stop unless `..`, items recorded.",
+   note="Type-level helper-attribute sets carry no derive_ex entries (built with derive_ex=false). Unused (ignored) fields do not reach their field-level bound(...): code behaviour taken as reference.", ref="5 C04"),
  "C05": dict(level="model_checking", technique="exhaustive comparison of the extracted accept/reject function with the documented one + placement-check and error-isolation rules",
    text="For every (attribute state, derived set, trait) point the extracted 'expands to an error' bit equals the documented one (2^20 x 31 x <=5 points, exhaustive); verify(Type/Variant/Field) is evaluated on all paths; every successful path of the helper-attribute constructor runs the placement check with the caller's own target; in both cores a builder error becomes that entry's compile_error and never aborts the expansion.",
    note="Argument-syntax errors are structmeta's concern. Reference derived from doc prose (DESIGN.md section 4).", ref="5 C05"),
